@@ -212,13 +212,18 @@ Section Editor.
   (* ---------- reader (tty/unix.rs PosixRawReader) ---------- *)
 
   (* next_char: skips to the next chunk when the current one is exhausted *)
-  Fixpoint take_char (cur : list inchar) (rest : list (list inchar)) : option (inchar * istream) :=
+  Fixpoint take_first (rest : list (list inchar)) : option (inchar * istream) :=
+    match rest with
+    | [] => None
+    | ch :: rest' => match ch with
+                     | c :: t => Some (c, mkIn t rest')
+                     | [] => take_first rest'
+                     end
+    end.
+  Definition take_char (cur : list inchar) (rest : list (list inchar)) : option (inchar * istream) :=
     match cur with
     | c :: t => Some (c, mkIn t rest)
-    | [] => match rest with
-            | [] => None
-            | ch :: rest' => take_char ch rest'
-            end
+    | [] => take_first rest
     end.
   Definition next_char : E N :=
     fun s => match take_char (in_cur (e_inp s)) (in_rest (e_inp s)) with
@@ -236,9 +241,9 @@ Section Editor.
     | [] => match t with
             | TZero => eret false
             | TForever => eret true                    (* more input, or a hang-up, wakes it *)
-            | THundred =>                              (* 100 ms: the driver only sends at quiescence,
-                                                          i.e. while this poll is pending *)
-              eret (match in_rest (e_inp s) with [] => true | _ => true end)
+            | THundred => eret false                   (* 100 ms: the driver sends the next chunk only
+                                                          once the child waits with no timeout, so a
+                                                          timed wait always expires first *)
             end
     end.
 
